@@ -449,6 +449,7 @@ func (in *Interp) AddLanguageStatics() {
 			return nil, Errf("numbers requires an int value")
 		}
 		if n > 100000 {
+			in.BudgetHit = true
 			return nil, ErrBudget
 		}
 		out := &List{}
